@@ -9,6 +9,9 @@ sys.path.insert(0, HERE)
 
 TECH = {'C01': 'runtime contract monitors (icontract / re-entrant wrapper) on every call of permute_systems, swap, permutation_operator against a NumPy tensor-axis reference model; unique-id arrays; product-form, inverse, row-only metamorphic oracles; repository suite under contract (thorough)', 'C02': 'runtime contract monitor on every partial_trace call (einsum reference model), composition / product / linearity oracles, cvxpy-Variable value path, repository suite under contract (thorough)', 'C03': 'runtime contract monitors on partial_transpose and realignment (axis-exchange reference model, arguments snapshotted before the call), involution / complement / Frobenius oracles, cvxpy value path, suite under contract (thorough)', 'C04': 'reference-model monitors (explicit Kraus loop, Choi from action) over all representation forms and conversion chains; contracts on internal apply_channel / kraus_to_choi calls; mixed-dtype operator families', 'C05': "adjoint-identity and Stinespring-marginal monitors evaluated through the reference application (never the library's apply_channel); rejection monitors", 'C06': 'ground-truth-by-construction predicate monitors with margins across all accepted forms; closed-formula monitors for built-in channels incl. parameter-range rejections; contracts on internal calls', 'C07': 'brute-force reference for the classical value, one-sided ordering monitors on SDP values incl. explicit quantum strategies, relabelling/padding disguises with value invariance, history monitor over call orders with state digests', 'C08': "certificate monitor (unit vectors + repaired dual point, NumPy-verified) for the Tsirelson optimum, NPA level-1 equality, exact 2-2-2 quantum maximum by Jordan's lemma, affine outcome-relabelling relation", 'C09': 'brute-force unentangled value, ordering monitors, answer-relabelling disguises with invariance, strong-duality and explicit-feasible-point monitors for hedging, closed forms and repetition consistency for cloning', 'C10': 'primal/dual certificate monitor: returned POVM validity and attained value, dual-feasible operator repaired by measured infeasibility (NumPy only); closed forms, invariances, unambiguous-discrimination relations', 'C11': 'certificate monitor for minimum-error exclusion (attained value, repaired dual-feasible lower bound), closed forms, antidistinguishability anchors (trine, BB84, PBR) and certified-positive negatives', 'C12': "ordering monitors between explicit product measurements, the PPT value and the certified global optimum; cross-solver level-1 equality; before/after digests (element identities) of the caller's list", 'C13': 'documented formulas recomputed by Hermitian eigendecompositions, relation monitors on library values, rejection monitors, SDP value monitor for the fidelity of separability', 'C14': 'planted-Schmidt-coefficient closed forms, local-unitary invariance monitors, product-test ground truth with margins, S(k)-norm bracket against explicit Schmidt-rank-k vectors', 'C15': 'ground-truth-by-construction verdict monitors with margins; sys.monitoring attribution of every is_separable verdict to its return statement; crash classification by raising line', 'C16': 'predicate table: exact positives, margin negatives, property-preserving transformations; helper identities against NumPy', 'C17': 'defining-identity monitors for every constructor over parameter grids incl. end points; reference partial traces / transposes / permutations; Haar-unitary invariance sampling', 'C18': 'exhaustive enumeration of the finite (d, p), permutation, multiset and matching spaces against model permutation operators and itertools', 'C19': 'kind monitors (model checks), offline-checked history of interleaved seeded / unseeded calls with global-RNG digests, POVM / Born-rule monitors, P_opt bracket from the C10 certificate', 'C20': 'closed forms (unitary pairs, replacement channels), explicit-input lower bounds, independent SDP of the definition, return-site attribution of the cb trace norm'}
 
+GENERIC = ("; on every library call: plain-argument digests before/after, read-only array arguments in one case out of four, and an offline-checked "
+           "call history (sampled cases re-run in reverse order by fresh processes must reproduce every recorded value)")
+
 CHECKS = {
     # id: (technique, level text, level note, design ref)
 }
@@ -50,7 +53,7 @@ def main():
                 "design_ref": f"DESIGN.md section 4, {pid}",
             },
             "level_note": "; ".join(getattr(mod, "ASSUMPTIONS", [])) or "see DESIGN.md",
-            "technique": "runtime monitoring: " + TECH.get(pid, "reference-model and contract monitors over generated workloads"),
+            "technique": "runtime monitoring: " + TECH.get(pid, "reference-model and contract monitors over generated workloads") + GENERIC,
         })
     not_app = []
     for i in range(1, 21):
